@@ -1285,31 +1285,27 @@ _TI = 'tmgr/staging_input/default.py'
 _TO = 'tmgr/staging_output/default.py'
 _H  = 'utils/staging_helper.py'
 
-# proposed repair of F06 (proposed_fixes/F06.diff): TARBALL passes the guard,
-# and only the directive which names the tarball itself triggers the untar
-_FIX06 = [
-    (_AI, "            if action not in [rpc.COPY, rpc.LINK, rpc.MOVE, rpc.DOWNLOAD]:",
-          "            if action not in [rpc.COPY, rpc.LINK, rpc.MOVE, rpc.DOWNLOAD,\n                              rpc.TARBALL]:"),
-    (_AI, "            if action == rpc.TARBALL:\n\n                # If somethig was staged",
-          "            if action == rpc.TARBALL:\n\n                if os.path.basename(tgt.path) != '%s.tar' % uid:\n                    self._prof.prof('staging_in_skip', uid=uid, msg=did)\n                    continue\n\n                # If somethig was staged"),
-]
+# the agent input guard as it is after the F06 repair
+_GUARD = "            if action not in [rpc.COPY, rpc.LINK, rpc.MOVE, rpc.DOWNLOAD,\n                              rpc.TARBALL]:"
 
 MUTATIONS = [
-    dict(name='R11.1 F06 repaired, then MOVE dropped from the agent guard', rules=('R11.1',), edits=[
-        (_AI, "            if action not in [rpc.COPY, rpc.LINK, rpc.MOVE, rpc.DOWNLOAD]:",
-              "            if action not in [rpc.COPY, rpc.LINK, rpc.DOWNLOAD, rpc.TARBALL]:")]),
+    dict(name='R11.1 F06 reverted: TARBALL removed from the agent guard', rules=('R11.1',), edits=[
+        (_AI, _GUARD, "            if action not in [rpc.COPY, rpc.LINK, rpc.MOVE, rpc.DOWNLOAD]:")]),
+    dict(name='R11.1 MOVE dropped from the agent input guard', rules=('R11.1',), edits=[
+        (_AI, _GUARD, "            if action not in [rpc.COPY, rpc.LINK, rpc.DOWNLOAD,\n                              rpc.TARBALL]:")]),
     dict(name='R11.1 agent output guard loses LINK', rules=('R11.1',), edits=[
         (_AO, "            if action not in [rpc.COPY, rpc.LINK, rpc.MOVE]:",
               "            if action not in [rpc.COPY, rpc.MOVE]:")]),
-    dict(name='R11.1 F06 repaired, untar branch tests the wrong constant', rules=('R11.1',), edits=_FIX06 + [
+    dict(name='R11.1 untar branch tests the wrong constant', rules=('R11.1',), edits=[
         (_AI, "            if action == rpc.TARBALL:\n", "            if action == rpc.TRANSFER:\n")],
          note='TARBALL directives then reach handle_staging_directive, which refuses them'),
     dict(name='R11.1 helper no longer accepts DOWNLOAD', rules=('R11.1',), edits=[
         (_H, "        assert action in [COPY, LINK, MOVE, TRANSFER, DOWNLOAD]",
              "        assert action in [COPY, LINK, MOVE, TRANSFER]")]),
     dict(name='R11.1 agent input guard polarity flipped', rules=('R11.1',), edits=[
-        (_AI, "            if action not in [rpc.COPY, rpc.LINK, rpc.MOVE, rpc.DOWNLOAD]:",
-              "            if action in [rpc.COPY, rpc.LINK, rpc.MOVE, rpc.DOWNLOAD]:")]),
+        (_AI, _GUARD, "            if action in [rpc.COPY, rpc.LINK, rpc.MOVE, rpc.DOWNLOAD,\n                          rpc.TARBALL]:")]),
+    dict(name='R11.1 untar branch dropped, tarballs go to the helper', rules=('R11.1',), edits=[
+        (_AI, "            if action == rpc.TARBALL:\n", "            if False:\n")]),
     dict(name='R11.2 agent intake filter loses DOWNLOAD', rules=('R11.2',), edits=[
         (_AI, "                if sd['action'] in [rpc.LINK, rpc.COPY, rpc.MOVE,\n                                    rpc.TARBALL, rpc.DOWNLOAD]:",
               "                if sd['action'] in [rpc.LINK, rpc.COPY, rpc.MOVE,\n                                    rpc.TARBALL]:")]),
@@ -1362,10 +1358,10 @@ MUTATIONS = [
 ]
 
 SILENT = [
-    dict(name='F06 repaired (proposed_fixes/F06.diff)', edits=_FIX06),
-    dict(name='F06 repaired with the guard in `not (.. in ..)` form', edits=[
-        (_AI, "            if action not in [rpc.COPY, rpc.LINK, rpc.MOVE, rpc.DOWNLOAD]:",
-              "            if not (action in [rpc.COPY, rpc.LINK, rpc.MOVE, rpc.DOWNLOAD,\n                               rpc.TARBALL]):")]),
+    dict(name='agent input guard in `not (.. in ..)` form', edits=[
+        (_AI, _GUARD, "            if not (action in [rpc.COPY, rpc.LINK, rpc.MOVE, rpc.DOWNLOAD,\n                               rpc.TARBALL]):")]),
+    dict(name='agent input guard as a chain of comparisons', edits=[
+        (_AI, _GUARD, "            if action != rpc.COPY and action != rpc.LINK and \\\n               action != rpc.MOVE and action != rpc.DOWNLOAD and \\\n               action != rpc.TARBALL:")]),
     dict(name='intake filter in early-continue form', edits=[
         (_AO, "                    if sd['action'] in [rpc.LINK, rpc.COPY, rpc.MOVE]:\n                        actionables.append(sd)\n",
               "                    if sd['action'] not in [rpc.LINK, rpc.COPY, rpc.MOVE]:\n                        continue\n                    actionables.append(sd)\n")]),
@@ -1384,7 +1380,7 @@ SILENT = [
     dict(name='skip on failure as nested ifs', edits=[
         (_AO, "                if task['target_state'] != rps.DONE \\\n                        and not task['description'].get('stage_on_error'):\n                    task['state'] = task['target_state']\n                    self._log.debug('task %s skips staging: %s', uid, task['state'])\n                    no_staging_tasks.append(task)\n                    continue\n",
               "                if task['target_state'] != rps.DONE:\n                    if not task['description'].get('stage_on_error'):\n                        task['state'] = task['target_state']\n                        no_staging_tasks.append(task)\n                        continue\n")]),
-    dict(name='untar moved into a method of the stager (F06 repaired)', edits=_FIX06 + [
+    dict(name='untar moved into a method of the stager', edits=[
         (_AI, "                tar = tarfile.open(tarball)\n                tar.extractall(path='/')\n                tar.close()\n",
               "                self._untar(tarball)\n"),
         (_AI, "    # --------------------------------------------------------------------------\n    #\n    def _handle_task_staging(self, task, actionables):\n",
